@@ -10,7 +10,7 @@ hooks = subprocess.run(["git", "-C", "/repo", "log", "--format=%H %s", "--grep=^
 hook_commits = [h.split()[0] for h in hooks if h]
 m = {
     "version": 1,
-    "setup_cmd": "python3 tools/build.py --variant V0 --quiet && python3 tools/build.py --variant VP --quiet",
+    "setup_cmd": "python3 tools/build.py --variant V0 --quiet && python3 tools/build.py --variant VP --quiet && python3 tools/build.py --variant V3 --quiet",
     "hooks": {
         "guard": "ABT_VERIF_SIM",
         "enable": "tools/build.py compiles /repo/src (list from src/Makefile.am) with -DABT_VERIF_SIM and redirects libc/pthread/futex/clock/allocator symbols of the libabt objects with objcopy --redefine-syms=tools/redef.txt; nothing is built inside /repo",
